@@ -26,6 +26,7 @@ for f in $FILES; do
 done
 if [[ $H == fz_* ]]; then L="-fsanitize=fuzzer,address,undefined"; R=""; else L="-fsanitize=address,undefined"; R="-lrapidcheck"; fi
 clang++-14 $FLAGS $INC /verif/harness/$H.cpp -o "$T/$H" $L -fopenmp "$T/libgstlearn.a" $B/libcsparse.a $B/libgmtsph.a -lnlopt $R
+[ -n "$KEEPBIN" ] && cp "$T/$H" "$KEEPBIN"
 set +e
 EXCL0=$(python3 - <<PY
 import json
